@@ -128,9 +128,41 @@ class Gen:
         if self.rng.random() < 0.35:
             self.sp()
 
+    PP_JUNK = ["class Zz {", "def ; ) (", "let = in", "\"unterminated", "x y z", "", "include \"nowhere.td\"", "multiclass M<", "}}}"]
+
+    def pp_lines(self):
+        """one preprocessor directive / region on its own line(s); the parser attaches it to the PRECEDING statement as trailing
+        trivia, so a folding range (and a link range) must end before it"""
+        r = self.rng
+        k = r.random()
+        ind = r.choice(["", "", "  ", "\t"])
+        self.pp_n = getattr(self, "pp_n", 0) + 1
+        if k < 0.3:
+            name = "PP%d" % self.pp_n
+            self.pp_defined = getattr(self, "pp_defined", []) + [name]
+            self.emit(ind + "#define " + name)
+            self.features.add("pp-define")
+        elif k < 0.7:
+            self.emit(ind + "#ifdef UNDEF%d" % self.pp_n + self.nlc)
+            for _ in range(r.randrange(0, 3)):
+                self.emit(r.choice(self.PP_JUNK) + self.nlc)
+            self.emit(ind + "#endif")
+            self.features.add("pp-disabled-region")
+        elif k < 0.85 and getattr(self, "pp_defined", []):
+            self.emit(ind + "#ifdef " + r.choice(self.pp_defined) + self.nlc + ind + "#endif")
+            self.features.add("pp-enabled-empty-region")
+        else:
+            self.emit(ind + "#ifndef UNDEF%d" % self.pp_n + self.nlc + ind + "#endif")
+            self.features.add("pp-enabled-empty-region")
+
     def stmt_gap(self):
         """trivia between two statements / items when no documentation follows: ends with a newline + indent,
         may contain a trailing line comment followed by a BLANK line (never documentation)"""
+        if self.rng.random() < 0.09:
+            self.emit(self.nlc)
+            self.pp_lines()
+            self.newline()
+            return
         r = self.rng.random()
         if r < 0.12:
             self.emit(" // %s" % self.word())
@@ -877,9 +909,28 @@ class Gen:
         if self.rng.random() < 0.3:
             self.emit(self.rng.choice([self.nlc, "  ", self.nlc + self.nlc, "/* head */" + self.nlc]))
         again_at = self.rng.randrange(0, n) if (self.include_again and self.rng.random() < 0.7) else None
+        # an include guard around the whole file / an enabled #ifdef region around some statements: what is inside is parsed
+        # as usual; the closing `#endif` follows the last statement inside (trailing trivia of that statement)
+        guard = self.rng.random() < 0.12
+        if guard:
+            if self.off > 0 and not self.last_nl:
+                self.emit(self.nlc)
+            self.emit("#ifndef GUARD_H" + self.nlc + "#define GUARD_H" + self.nlc)
+            self.features.add("pp-include-guard")
+        region = (self.rng.randrange(0, n), self.rng.randrange(1, 3)) if self.rng.random() < 0.15 else None
+        open_region = False
         for k in range(n):
             if self.stop:
                 break
+            if region and k == region[0]:
+                if self.off > 0 and not self.last_nl:
+                    self.emit(self.nlc)
+                self.emit("#ifndef NOT_DEFINED_%d" % k + self.nlc)
+                open_region = True
+                self.features.add("pp-enabled-region")
+            if region and open_region and k == region[0] + region[1]:
+                self.emit(self.nlc + "#endif" + self.nlc)
+                open_region = False
             if k == again_at:
                 # a second include of a file that is indexed already: ignored; what follows still belongs to THIS file
                 self.stmt_gap()
@@ -887,6 +938,10 @@ class Gen:
                 self.newline()
                 self.features.add("include-twice")
             self.statement("top", self.outline)
+        if open_region:
+            self.emit(self.nlc + "#endif")
+        if guard:
+            self.emit(self.nlc + "#endif")
         if self.rng.random() < 0.8:
             self.emit(self.rng.choice([self.nlc, " ", self.nlc + self.nlc, " // end", self.nlc + "// end" + self.nlc]))
 
